@@ -61,6 +61,9 @@ struct Ctx {
 	bool bigSizes = false;     // occasionally 15..33 elements
 	bool textNoEdgeSpace = false;   // avoid leading/trailing blanks and whitespace-only strings
 	bool keyNul = false;            // directed case: map keys contain U+0000
+	bool badUtf = false;            // fault scenario: 8-bit strings contain ill-formed UTF-8
+	bool badEnum = false;           // fault scenario: enum values that are not registered
+	bool ragged = false;            // fault scenario: CSV rows with different key sets
 };
 
 // ---------------------------------------------------------------- enum
@@ -118,6 +121,7 @@ template <class Ch> void genString(vh::Rng& r, std::basic_string<Ch>& s, const C
 	int n = k < 8 ? 0 : k < 70 ? int(r.range(1, 6)) : k < 95 ? int(r.range(1, maxLen)) : int(r.range(30, 40));
 	if (c.bigSizes && r.chance(1, 40)) n = int(r.pick(std::vector<int>{ 31, 32, 33, 255, 256, 257, 300 }));
 	for (int i = 0; i < n; ++i) appendCp(s, genCp(r, c));
+	if constexpr (sizeof(Ch) == 1) { if (c.badUtf && r.chance(1, 2)) { s.insert(s.begin() + long(r.below(s.size() + 1)), Ch(0xFF)); s.push_back(Ch(0xE2)); } }
 	if (c.textNoEdgeSpace && !s.empty()) {
 		auto blank = [](Ch ch) { return ch == Ch(' ') || ch == Ch('\t') || ch == Ch('\n') || ch == Ch('\r'); };
 		if (blank(s.front())) s.insert(s.begin(), Ch('x'));
@@ -248,7 +252,7 @@ template <class A> struct SerV {
 template <class T> void gen(vh::Rng& r, T& v, const Ctx& c) {
 	if constexpr (std::is_same_v<T, bool>) v = r.chance(1, 2);
 	else if constexpr (std::is_same_v<T, std::byte>) v = std::byte(r.below(256));
-	else if constexpr (std::is_enum_v<T>) { static const Color all[] = { Color::Red, Color::Green, Color::Blue, Color::Neg, Color::Big }; v = all[r.below(5)]; }
+	else if constexpr (std::is_enum_v<T>) { static const Color all[] = { Color::Red, Color::Green, Color::Blue, Color::Neg, Color::Big }; v = all[r.below(5)]; if (c.badEnum && r.chance(1, 3)) v = static_cast<T>(77); }
 	else if constexpr (std::is_integral_v<T>) v = genInt<T>(r);
 	else if constexpr (std::is_floating_point_v<T>) v = genFloat<T>(r, c);
 	else if constexpr (is_std_string<T>::value) genString(r, v, c);
@@ -319,7 +323,7 @@ inline void gen(vh::Rng& r, std::vector<std::map<std::string, std::string>>& v, 
 	// (the first header begins with an ASCII letter: encoding of a BOM-less stream is detectable only when the text begins with ASCII)
 	for (int i = 0; i < nk; ++i) { std::string k; genName(r, k, c); k += std::to_string(i); k.insert(k.begin(), char(0x61 + i)); keys.push_back(k); }
 	int n = genSize(r, c);
-	for (int i = 0; i < n; ++i) { std::map<std::string, std::string> row; for (auto& k : keys) genString(r, row[k], c); v.push_back(std::move(row)); }
+	for (int i = 0; i < n; ++i) { std::map<std::string, std::string> row; for (auto& k : keys) genString(r, row[k], c); if (c.ragged && i > 0 && r.chance(1, 2)) row["extra"] = "x"; v.push_back(std::move(row)); }
 }
 template <class K, class V, class C2, class A> void gen(vh::Rng& r, std::multimap<K, V, C2, A>& v, const Ctx& c) { genMapLike(r, v, c, true); }
 template <class K, class V, class H, class E, class A> void gen(vh::Rng& r, std::unordered_map<K, V, H, E, A>& v, const Ctx& c) { genMapLike(r, v, c, false); }
@@ -506,6 +510,18 @@ struct Wrappers {
 struct Zoo {
 	Scalars sc; Chrono chr; Containers co; Maps ma; Wrappers wr; Derived d; int32_t tail = 0;
 	template <class V> void visit(V& v) { v("sc", sc); v("chr", chr); v("co", co); v("ma", ma); v("wr", wr); v("d", d); v("tail", tail); }
+	MZ_SERIALIZE
+};
+
+// a class whose number of fields differs between the counting pass and the writing pass (consistency error detected mid-save by binary archives)
+struct Flaky {
+	int32_t x = 0; std::string y; int32_t z = 0; mutable int passes = 0;
+	template <class V> void visit(V& v) { v("x", x); v("y", y); }
+	template <class A> void Serialize(A& archive) { SerV<A> v{ archive }; v("x", x); v("y", y); if (++passes > 1) v("z", z); }
+};
+struct FlakyHolder {
+	std::vector<Flaky> items; int32_t tail = 0;
+	template <class V> void visit(V& v) { v("items", items); v("tail", tail); }
 	MZ_SERIALIZE
 };
 
